@@ -9,6 +9,8 @@ mod util;
 pub use clap::Parser;
 pub use cmd_args::*;
 pub use server::{AsyncConnection, ExitError, run_ls};
+#[cfg(feature = "verif-hooks")]
+pub use server::verif_hooks;
 
 #[macro_use]
 extern crate rust_i18n;
